@@ -195,7 +195,9 @@ inline face_t optimal_face_recession(const MatrixXd& Q, const VectorXd& c, const
     {
         Gh.row(static_cast<long>(i)) = grows[i].transpose();
     }
-    const MatrixXd W = Gh * N; // cone in null-space coordinates: W z <= 0
+    // cone in null-space coordinates: W z <= 0. Rows and basis are unit-scaled, so an entry at rounding level is a zero (an
+    // inequality row parallel to an equality row / to c gives W = 1e-17, which the relative rank test below would take for rank 1)
+    const MatrixXd W = (Gh * N).unaryExpr([](double w) { return std::fabs(w) <= 1e-12 ? 0.0 : w; });
 
     VectorXd z;
     bool     found = false;
